@@ -29,8 +29,18 @@ class C05(Prop):
         self._bad_rows = bad
         return [("translator output parsed by refcheck", bool(out and out[0].startswith("F ")), "")]
 
+    generic_groups = True
+
     def observable(self, line):
         return "C ERR" if line.startswith("C ERR") else line
+
+    def group_observable(self, line):
+        # spellings of one unit expression differ in length: compare values and units, not error spans
+        if line.startswith("C ERR"):
+            return "C ERR"
+        if line.startswith("R "):
+            return " | ".join("ERR" if it.startswith("ERR") else it for it in line[2:].split(" | "))
+        return line
 
     def nontrivial(self, case, impl):
         return impl.startswith("C ") and not impl.startswith("C ERR")
@@ -280,6 +290,9 @@ class C05(Prop):
                 c2.expect = ("TIGHT", "3", exp)
             out.append(c2)
             out.append(Case("query " + C.hexs("3 m to " + t2), "unitexpr-layout-query", "3 m to " + t2))
+        # a literal `1` inside a unit expression is a neutral factor (`m/s 1/kg` reads like `m/s/kg`)
+        from . import extragen as X
+        out += X.one_inside_unit(rng, tier)
         # the same unit twice with different prefixes (a Compound holds one prefix per unit, so
         # the tool may refuse; if it accepts, the reading must keep the power of ten between them)
         from fractions import Fraction
